@@ -143,6 +143,7 @@ Ltac crush := dand; repeat match goal with H : _ \/ _ |- _ => destruct H; dand e
   try (left; repeat split; (lia || congruence)); try (right; repeat split; (lia || congruence)).
 
 Ltac btrue := repeat match goal with
+  | H : context [negb wait_needs_close || _] |- _ => rewrite wait_ok_eq in H
   | H : (_ && _) = true |- _ => apply andb_prop in H; destruct H
   | H : negb _ = true |- _ => apply negb_true_iff in H
   end.
